@@ -3,6 +3,7 @@
 (* base archive) recorded by h-snap from the REAL snapshot code:              *)
 (*   scn.wrap, scn.faults   the fault list (Archive!Fault records)            *)
 (*   base.empty             the state payload of the fresh archive was empty  *)
+(*   base.sums_first        member listed first in its SHA256SUMS (map order) *)
 (*   api.<entry point>      how many of the n byte-level instances of the     *)
 (*                          scenario were rejected / accepted with the same    *)
 (*                          state+metadata / accepted with different ones, for *)
@@ -21,7 +22,7 @@ F(name, ok) == IF ok THEN {} ELSE {name}
 
 Verdict(i) ==
   LET e   == Trace[i]
-      a0  == Valid(e.scn.wrap, e.base.empty)
+      a0  == ValidF(e.scn.wrap, e.base.empty, e.base.sums_first)
       fs  == e.scn.faults
   IN IF ~Applicable(a0, fs) THEN [cls |-> "drift", bad |-> {"drift"}]
      ELSE
